@@ -173,9 +173,9 @@ CfgSet(_z) ==
 
 MCInit == \E c \in CfgSet(0) : InitWith(c)
 AtOpaque == pc = "run" /\ g <= NG /\ (IF m <= Len(cfg.pipe[g]) THEN cfg.pipe[g][m].kind = "opaque" ELSE FALSE)
-MCNext == \/ Next
-          \/ (AtOpaque /\ \E after \in OpaqueAfter(bucket) : RunOpaque(after))
-          \/ (AtOpaque /\ OpaqueRaise)
+MCOpaqueRun == AtOpaque /\ \E after \in OpaqueAfter(bucket) : RunOpaque(after)
+MCOpaqueRaise == AtOpaque /\ OpaqueRaise
+MCNext == Next \/ MCOpaqueRun \/ MCOpaqueRaise
 IsSession == FAMILY = "session"
 MCRestart == IsSession /\ Restart
 MCToggle  == IsSession /\ \E gg \in {2, 5}, mm \in 1 .. 2 : Toggle(gg, mm)
